@@ -91,9 +91,20 @@ def families():
     F.append(("dae x'=-x+z, 0=z-sin(2 pi t) from rest", nDAE(M, lambda t, y, p, w=w2: np.array([-y[0] + y[1], y[1] - np.sin(w * t)]),
                                                              lambda t, y, p: csc_array(np.array([[-1.0, 1.0], [0.0, 1.0]])), {}),
               np.array([0.0, 0.0]), lambda t, w=w2: np.array([xz(t), np.sin(w * t)]), 0.0, 10.0))
+    # autonomous, non-stiff index-1 DAE (the model of the library's own test_dae): x' = -x^3 + z^2/2, 0 = x^2 + z^2 - 2; reference from the
+    # reduced ODE x' = -x^3 + 1 - x^2/2 integrated at 1e-13
+    from scipy.integrate import solve_ivp
+    ref = solve_ivp(lambda t, x: -x ** 3 + 1.0 - x ** 2 / 2, (0.0, 20.0), [1.0], rtol=1e-13, atol=1e-14, dense_output=True, method="DOP853")
+    def ex_circ(t, ref=ref):
+        x = float(ref.sol(t)[0])
+        return np.array([x, np.sqrt(2.0 - x * x)])
+    F.append((CIRCLE_DAE, nDAE(M, lambda t, y, p: np.array([-y[0] ** 3 + 0.5 * y[1] ** 2, y[0] ** 2 + y[1] ** 2 - 2.0]),
+                               lambda t, y, p: csc_array(np.array([[-3 * y[0] ** 2, y[1]], [2 * y[0], 2 * y[1]]])), {}),
+              np.array([1.0, 1.0]), ex_circ, 0.0, 20.0))
     return F
 
 
+CIRCLE_DAE = "dae x'=-x^3+z^2/2, 0=x^2+z^2-2 (autonomous, non-stiff)"
 ZERO_SLOPE_DAE = "dae x'=-x+z, 0=z-sin(2 pi t) from rest"
 
 
@@ -142,6 +153,7 @@ def run(rep, tier, seed):
     rng = np.random.default_rng(seed)
     fails, diffs, broken, known = [], [], [], []
     known32 = []
+    known57 = []
     # ---- trace invariants + controller replay
     P = RC.problems()
     lines, expect, cases = [], [], []
@@ -194,7 +206,7 @@ def run(rep, tier, seed):
             if name.endswith("from rest"):
                 atol = rtol          # the solution oscillates through zero: an absolute tolerance on the scale of its amplitude (0.16)
             for mode in ("two", "dense"):
-                tspan = [t0, tend] if mode == "two" else list(np.linspace(t0, tend, 41))
+                tspan = [t0, tend] if mode == "two" else list(np.linspace(t0, tend, 41 if name != CIRCLE_DAE else 2001))
                 for sname, solver in solvers:
                     case = dict(problem=name, solver=sname, rtol=rtol, atol=atol, tspan=mode)
                     nruns += 1
@@ -214,6 +226,8 @@ def run(rep, tier, seed):
                             known.append((case, ratio))
                         elif sname == "ode15s" and name == ZERO_SLOPE_DAE:
                             known32.append((case, ratio))
+                        elif mode == "dense" and sname in ("rodas4", "rodasp") and name == CIRCLE_DAE and rtol <= 1e-6:
+                            known57.append((case, ratio))
                         else:
                             fails.append((case, f"{sname} on {name}: error / (atol + rtol|y|) = {ratio:.3g} at t = {at} exceeds {bound} "
                                                 f"(rtol {rtol:g}, {mode}-node tspan)"))
@@ -344,7 +358,14 @@ def run(rep, tier, seed):
     rep.cov["traces_validated_against_impl"] = len(lines) - len(diffs)
     kf_all = known_findings("C08")
     kf32 = [e for e in kf_all if e.get("id") == "D32"]
-    kf = [e for e in kf_all if e.get("id") != "D32"]
+    kf57 = [e for e in kf_all if e.get("id") == "D57"]
+    kf = [e for e in kf_all if e.get("id") not in ("D32", "D57")]
+    if known57 and kf57:
+        rep.known("D57", kf57[0]["line"].split("property=C08 ", 1)[1] + f"; {len(known57)} runs of this check fall in the recorded class, worst ratio "
+                                                                       f"{max(r for _, r in known57):.3g}")
+    else:
+        for case, r in known57[:2]:
+            fails.append((case, f"Rodas dense output of an algebraic variable at a tight tolerance: error/(atol+rtol|y|) = {r:.3g}"))
     if known32 and kf32:
         rep.known("D32", kf32[0]["line"].split("property=C08 ", 1)[1] + f"; {len(known32)} runs of this check fall in the recorded class, worst ratio "
                                                                        f"{max(r for _, r in known32):.3g}")
